@@ -968,9 +968,9 @@ func coqAccept(a acceptResult, tol int) string {
 	for _, ok := range a.ProbeOK {
 		allok = allok && ok
 	}
-	return fmt.Sprintf("{| a_cfg := %s; a_n := %d; a_peer_in_pp := %s; a_probe := %s; a_first := %s; a_ok := %s; a_base := %s; a_cap := %s; a_lead := %s; a_tol := %s |}",
+	return fmt.Sprintf("{| a_cfg := %s; a_n := %d; a_peer_in_pp := %s; a_probe := %s; a_first := %s; a_ok := %s; a_base := %s; a_cap := %s; a_lead := %s; a_rate := %s; a_tol := %s |}",
 		coqCfg(st, a.Sc.Lim), a.Sc.N, coqBool(st.PP && (a.Sc.PeerOp == "silent" || a.Sc.PeerOp == "pp-partial")),
-		z(worst), z(a.ProbeMs[0]), coqBool(allok), z(a.BaseMs), z(int64(a.Sc.CapMs)), z(a.LeadMs), z(int64(tol)))
+		z(worst), z(a.ProbeMs[0]), coqBool(allok), z(a.BaseMs), z(int64(a.Sc.CapMs)), z(a.LeadMs), z(int64(a.Sc.RateLimit)), z(int64(tol)))
 }
 
 // ---------------------------------------------------------------- main
